@@ -48,6 +48,7 @@ def gen_types(rng, nt=None, ne=None, exotic=True):
             plan[n] = k
             for x in k:
                 anc[n] |= anc[x]
+    cyc_budget = [2]
     for i, n in enumerate(names):
         props, rules = [], []
         if plan[n]:
@@ -57,7 +58,20 @@ def gen_types(rng, nt=None, ne=None, exotic=True):
             else:
                 rules.append("allOf: [%s]" % ", ".join('"%s"' % x for x in k))
         props.append('"p%d": %d' % (i, i))
-        for m in rng.sample(names, rng.randint(0, min(3, nt))):
+        # references: mostly "downwards" in the hidden order (acyclic), some anywhere (cycles through
+        # optional properties); few per type: the dependency's example of heavily recursive types
+        # grows exponentially (a 100-line document gave a 340 MB catalog)
+        lower_r = [m for m in names if rank[m] < rank[n]]
+        targets = []
+        for _ in range(rng.randint(0, 2)):
+            if lower_r and rng.random() < 0.75:
+                targets.append(rng.choice(lower_r))
+            elif rng.random() < 0.5:
+                targets.append(rng.choice(names))
+        cyc_budget[0] -= sum(1 for m in targets if rank[m] >= rank[n])
+        if cyc_budget[0] < 0:
+            targets = [m for m in targets if rank[m] < rank[n]]
+        for m in dict.fromkeys(targets):
             form = rng.random()
             pn = "r%d_%s" % (i, m[1:])
             if form < 0.45:
@@ -65,7 +79,7 @@ def gen_types(rng, nt=None, ne=None, exotic=True):
             elif form < 0.6:
                 props.append('"%s": [ // {optional: true}\n    %s\n  ]' % (pn, m))
             elif form < 0.8 and len(names) > 1:
-                o = rng.choice(names)
+                o = rng.choice(lower_r) if lower_r else m
                 props.append('"%s": %s | %s // {optional: true}' % (pn, m, o))
             else:
                 props.append('"%s": 1 // {or: ["%s", "integer"], optional: true}' % (pn, m))
